@@ -187,7 +187,9 @@ theorem sendInput_move {cfg : MCfg} {t : Table} {ch : Chan MDev} {a tgt : Name} 
 def authLog (sec : Line) (pw : Option Line) (a x : Name) (esc : Line) : List (Name × Line) :=
   match pw with
   | some _ => [(a, esc)]                 -- the password answer is not a command
-  | none => [(a, esc), (x, sec)]         -- the device never asked: the secondary password is typed as a command
+  | none =>                              -- the device never asked:
+    if interactBreaksOnComplete then [(a, esc)]     -- the interactive session ends at the new level's prompt
+    else [(a, esc), (x, sec)]                       -- (before the fix) the secondary password was typed as a command
 
 theorem escalateAuth_coop {cfg : MCfg} {t : Table} {c : Cfg} {ch : Chan MDev} {a : Name} {log : List (Name × Line)} {r : Nat}
     {lx la : Level} (h : At ch a log r) (hco : Coop t c cfg) (hlx : lookup t lx.name = some lx)
@@ -198,11 +200,18 @@ theorem escalateAuth_coop {cfg : MCfg} {t : Table} {c : Cfg} {ch : Chan MDev} {a
   cases hpw : cfg.password with
   | none =>
     obtain ⟨ch1, e1, h1⟩ := io_move h hco.noBlock hm (Or.inr hpw)
-    obtain ⟨ch2, e2, h2⟩ := io_inert h1 hco.noBlock (hco.inertSec hpw lx.name)
-    refine ⟨ch2, ?_, ?_⟩
-    · unfold escalateAuth; rw [e1]; simp only [eventDone, hkey]; simp only [List.contains_cons, beq_self_eq_true, Bool.true_or, Bool.or_true, if_true]
-      rw [e2]; simp [hkey]
-    · simpa [authLog, List.append_assoc] using h2
+    have hd1 : eventDone true la lx (.prompt (promptKey t lx.name) false) = true := by simp [eventDone, hkey]
+    cases hbr : interactBreaksOnComplete with
+    | true =>
+      refine ⟨ch1, ?_, ?_⟩
+      · unfold escalateAuth; rw [e1]; simp only [hd1, if_true, hbr, endedOnComplete, Bool.and_self]
+      · simpa [authLog, hbr] using h1
+    | false =>
+      obtain ⟨ch2, e2, h2⟩ := io_inert h1 hco.noBlock (hco.inertSec hpw lx.name)
+      refine ⟨ch2, ?_, ?_⟩
+      · unfold escalateAuth; rw [e1]; simp only [hd1, if_true, hbr, Bool.false_and, Bool.false_eq_true, if_false]
+        unfold escalateSecond; rw [e2]; simp [eventDone, hkey]
+      · simpa [authLog, hbr, List.append_assoc] using h2
   | some pw =>
     have hsec : pw = c.secondary := by
       rcases hco.pw with h' | h' <;> rw [hpw] at h' <;> simp at h'; exact h'
@@ -213,8 +222,8 @@ theorem escalateAuth_coop {cfg : MCfg} {t : Table} {c : Cfg} {ch : Chan MDev} {a
       (line := c.secondary) (tgt := lx.name) rfl hpw
     refine ⟨{ ch with dev := { mode := lx.name, pending := none, tries := 0,
                                 log := ch.dev.log ++ [(ch.dev.mode, lx.esc)] } }, ?_, ?_⟩
-    · unfold escalateAuth
-      simp only [io, h.isOpen, Bool.false_eq_true, if_false, modeDev, he1, eventDone, if_true, he2, hkey]
+    · unfold escalateAuth escalateSecond
+      simp only [io, h.isOpen, Bool.false_eq_true, if_false, modeDev, he1, eventDone, if_true, endedOnComplete, Bool.and_false, he2, hkey]
       simp
     · exact ⟨h.isOpen, rfl, rfl, by simp [authLog, h.log, h.mode], h.rounds⟩
 
